@@ -237,6 +237,7 @@ package fsnotify
 //@   requires token(reader) && nolocks() && Wf(w) && RingInv(w)
 //@   requires !closed(w.Events) && !closed(w.Errors) && !closed(w.doneResp)
 //@   ensures closed(w.Events) && closed(w.Errors) && closed(w.doneResp)                   [C06 C13] "the reader closes both channels when it exits"
+//@   ensures token(closer) ==> !fdOpen                                                    [C13 C06] "whoever marks the watcher closed also releases its descriptor: the reader does not take that role without doing so"
 //@   ensures nolocks()                                                                    [C05]
 //@   ghostvar k Int = 0
 //@   ghostvar hs hist
